@@ -17,11 +17,11 @@ func init() {
 	register("C03",
 		"Structural necessary conditions of C03 decided from /repo's SSA: (order-flag) rev-list is run with one of --date-order/--topo-order/--author-date-order (no parent before all of its children); (reverse) the commit list is only appended in enumeration order, requested and read back by descending loops, and the reader compares each returned id with the list element of the same index; (no-silent-miss) the lookups of a parent's / tree's size panic when the size is absent instead of returning zero; (effects) per-commit depth = MAX over the parent list (exactly one MAX per parent, operand = the looked-up size of that parent) then +1 exactly once; max_history_depth = MAX of it; per-tag depth starts at 1 and adds the referent's depth only under referent type `tag`, identically in the immediate and the listener branch; max_tag_depth = MAX of it. Not decided: git's ordering guarantee itself, the equality with the longest chain on concrete DAGs.",
 		[]string{"git rev-list --date-order/--topo-order/--author-date-order never shows a parent before all of its children", "field-based heap model"},
-		ruleC03OrderFlag, ruleC03Reverse, ruleC03NoSilentMiss, ruleC03Effects)
+		ruleC03OrderFlag, ruleC03Reverse, ruleC03NoSilentMiss, ruleC03Effects, ruleC03FinalOnly)
 	register("C09",
 		"Structural necessary conditions of C09 decided from /repo's SSA: (siblings) at each Require{Tree,Tag}Size call site the size-affecting updates executed when the referent is already known equal, edge by edge and count by count, those executed by the deferred listener; (pending) the branch that registers a listener increments the record's pending counter exactly once and the immediate branch not at all, the listener decrements it exactly once and then calls the maybe-finalize step, initialisation ends in that step on every non-error path, and finalisation happens only under pending==0 followed by notification of every listener; (single-consumer) see C17.confinement. Not decided: invariance under root order, timestamps and storage layout (relations between runs).",
 		[]string{"field-based heap model", "listeners are invoked with the final size of the referent (C01.once)"},
-		ruleC09Siblings, ruleC09Pending)
+		ruleC09Siblings, ruleC09Pending, ruleC09FinalOnly, ruleC09Order)
 }
 
 // ---------------- C02 ----------------
@@ -766,4 +766,107 @@ func (c *Ctx) checkEndsInFinalize(init *ssa.Function, ec *eventCounter, mf map[*
 	if !bad {
 		c.hold("C09.pending", key+":init-finalize", init.Pos(), "every success path of the initialiser passes through the maybe-finalize step")
 	}
+}
+
+// ruleC09FinalOnly: a quantity that deferred listeners still change may be
+// folded into the history-wide metrics only by the finalisation path
+// (behind the pending==0 guard), never while dependencies are outstanding.
+func ruleC09FinalOnly(c *Ctx) { finalOnly(c, "C09.final-only", nil, 8) }
+
+// the same clause restricted to the tag-depth metric (C03) and to the
+// checkout maxima (C04)
+func ruleC03FinalOnly(c *Ctx) {
+	finalOnly(c, "C03.final-only", map[string]bool{"H:max_tag_depth": true}, 1)
+}
+
+func ruleC04FinalOnly(c *Ctx) {
+	finalOnly(c, "C04.final-only", map[string]bool{"H:max_path_depth": true, "H:max_path_length": true, "H:max_expanded_tree_count": true, "H:max_expanded_blob_count": true, "H:max_expanded_blob_size": true, "H:max_expanded_link_count": true, "H:max_expanded_submodule_count": true}, 7)
+}
+
+func finalOnly(c *Ctx, rule string, only map[string]bool, floor int) {
+	e := c.effects()
+	// D: nodes updated from inside listener closures (directly or through callees)
+	D := map[string]bool{}
+	for _, rs := range c.requireSites() {
+		if rs.Listener == nil {
+			continue
+		}
+		seen := map[*ssa.Function]bool{}
+		var visit func(f *ssa.Function, depth int)
+		mf := c.maybeFinalizeFns()
+		visit = func(f *ssa.Function, depth int) {
+			if seen[f] || depth > 6 {
+				return
+			}
+			seen[f] = true
+			allInstrs(f, func(in ssa.Instruction) {
+				if ed, ok := e.BySite[in]; ok && ed.Counter {
+					D[ed.Target] = true
+				}
+				if call, ok := in.(*ssa.Call); ok {
+					if cal := call.Call.StaticCallee(); cal != nil && c.inRuleScope(cal) && len(cal.Blocks) > 0 && !mf[cal] {
+						visit(cal, depth+1)
+					}
+				}
+			})
+		}
+		visit(rs.Listener, 0)
+	}
+	if len(D) == 0 {
+		c.violate(rule, "deferred-nodes", token.NoPos, "", "no quantity is updated by a deferred listener")
+		return
+	}
+	n := 0
+	for _, ed := range e.Edges {
+		if !strings.HasPrefix(ed.Target, "H:") || (only != nil && !only[ed.Target]) {
+			continue
+		}
+		dep := ""
+		for _, t := range ed.Terms {
+			for _, a := range t.atoms() {
+				if D[a] {
+					dep = a
+				}
+			}
+		}
+		if dep == "" {
+			continue
+		}
+		n++
+		f := ed.Fn
+		var at ssa.Instruction = ed.Site
+		guarded := false
+		var chain []string
+		for depth := 0; depth < 8 && !guarded; depth++ {
+			chain = append(chain, fnName(f))
+			if c.isPendingZeroGuarded(at.Block()) {
+				guarded = true
+				break
+			}
+			callers := c.Callers[f]
+			if len(callers) != 1 {
+				break
+			}
+			at = callers[0]
+			f = at.Parent()
+		}
+		if guarded {
+			c.hold(rule, ed.Target, posOf(ed.Site), fmt.Sprintf("%s is folded in only behind the pending==0 guard (%s)", dep, strings.Join(chain, " <- ")))
+		} else {
+			c.violate(rule, ed.Target, posOf(ed.Site), fnName(ed.Fn), fmt.Sprintf("`%s` reads %s, which deferred listeners still change, on a path that does not pass the pending==0 guard (%s): when the referent is delivered later the metric is computed from a partial value", ed.Key(), dep, strings.Join(chain, " <- ")))
+		}
+	}
+	if n < floor {
+		c.violate(rule, "floor", token.NoPos, "", fmt.Sprintf("only %d history-wide updates read listener-dependent quantities (reference tree: %d)", n, floor))
+	}
+}
+
+// ruleC09Order: independence from commit timestamps needs the ordering
+// flag and the reverse processing of C03, reported under C09's name.
+func ruleC09Order(c *Ctx) {
+	c.RuleAlias = map[string]string{"C03.order-flag": "C09.order-flag", "C03.reverse": "C09.reverse", "C03.no-silent-miss": "C09.no-silent-miss"}
+	defer func() { c.RuleAlias = nil }()
+	ruleC03OrderFlag(c)
+	ruleC03Reverse(c)
+	ruleC03NoSilentMiss(c)
 }
